@@ -7,6 +7,7 @@ sed -i "$expr" "$f"
 if git diff --quiet; then echo "MUTATION DID NOT APPLY"; exit 2; fi
 git diff | grep '^[+-]' | grep -v '^+++\|^---' | head -6
 (go build ./... 2>&1 | head -5)
-cd /verif && ls replays/$id 2>/dev/null | sort > /tmp/.mut_before; ./check $id 2>&1 | grep -E "^\[check\] (OK|violation|INCONCLUSIVE)|^VIOLATION|KNOWN" | cut -c1-300 | head -6
+cd /verif && cp evidence/$id.json /tmp/.mut_ev.json 2>/dev/null; ls replays/$id 2>/dev/null | sort > /tmp/.mut_before; ./check $id 2>&1 | grep -E "^\[check\] (OK|violation|INCONCLUSIVE)|^VIOLATION|KNOWN" | cut -c1-300 | head -6
 git -C /repo checkout -- .
+cp /tmp/.mut_ev.json /verif/evidence/$id.json 2>/dev/null
 for f in $(ls /verif/replays/$id 2>/dev/null | sort | comm -13 /tmp/.mut_before -); do rm -f /verif/replays/$id/$f; done; rmdir /verif/replays/$id 2>/dev/null; true
